@@ -317,6 +317,11 @@ def _build_ofdm(case, tags):
     via = case.get("via_set")
     if via:
         o = OFDM(via[0], via[1], via[2])
+        if case.get("xseed", 0) % 2 == 0:
+            # an equalizer created BEFORE the parameters are changed must
+            # follow the OFDM object it was created for
+            from pyphysim.modulators.ofdm import OfdmOneTapEqualizer
+            o._vpbt_early_equalizer = OfdmOneTapEqualizer(o)
         if used is None:
             o.set_parameters(fft, cp)
         else:
@@ -351,7 +356,20 @@ def _check_ofdm_structure(case, ctx, o, used_eff, x, tags):
         raise Violation("prefix_copy", "prefix differs from the symbol tail "
                         "(max difference %.3e)" % bad, tags)
     # (i) round trip on a fresh copy (demodulate reshapes its argument)
-    back = np.asarray(o.demodulate(tx.copy()))
+    handed = tx.copy()
+    back = np.asarray(o.demodulate(handed))
+    # the array handed to demodulate still holds the emitted samples (its
+    # shape may have been changed, its values may not): demodulating it a
+    # second time, or looking at its prefixes afterwards, is ordinary use
+    if not np.array_equal(handed.reshape(-1), tx):
+        raise Violation("demodulate_modified_its_input", "the signal handed "
+                        "to demodulate() was changed by the call (max "
+                        "difference %.3e)" %
+                        float(np.max(np.abs(handed.reshape(-1) - tx))), tags)
+    again = np.asarray(o.demodulate(handed))
+    if again.shape != back.shape or not np.array_equal(again, back):
+        raise Violation("demodulate_twice_differs", "demodulating the same "
+                        "array a second time gives a different result", tags)
     if back.shape != (n_sym * used_eff,):
         raise Violation("roundtrip_length", "demodulate returned shape %r, "
                         "expected (%d,)" % (back.shape, n_sym * used_eff),
@@ -446,7 +464,12 @@ def _transmit_and_equalize(case, ctx, o, used_eff, ch, x, tx, n_sym, tags,
     with np.errstate(divide="ignore", invalid="ignore"):
         # (a zero reported response - known finding - divides by zero; the
         # resulting inf/nan is judged below, the numpy warning is noise)
-        eq = np.asarray(OfdmOneTapEqualizer(o).equalize_data(demod, ir))
+        equalizer = getattr(o, "_vpbt_early_equalizer", None)
+        if equalizer is None:
+            equalizer = OfdmOneTapEqualizer(o)
+        else:
+            ctx.label("equalizer_created_before_set_parameters")
+        eq = np.asarray(equalizer.equalize_data(demod, ir))
     if eq.shape != (n_sym * used_eff,):
         raise Violation("equalized_length", "equalize_data returned shape %r, "
                         "expected (%d,)" % (eq.shape, n_sym * used_eff), tags)
